@@ -427,7 +427,8 @@ theorem unlockAll_totalOf (pid : Nat) (l : List ((Nat × Acct) × Int)) (x : Acc
 that proposal -/
 theorem unlockAll_lockedOf (pid : Nat) (l : List ((Nat × Acct) × Int)) (x : Acct) (σ : LockType) :
     ∀ (g : Gov), lockedOf (unlockAll g pid l) x σ ≤ lockedOf g x σ ∧
-      (lockedOf (unlockAll g pid l) x σ ≠ lockedOf g x σ → σ = .ordinary ∧ ∃ amt, ((pid, x), amt) ∈ l) := by
+      (lockedOf (unlockAll g pid l) x σ ≠ lockedOf g x σ →
+        σ = .ordinary ∧ lockScanCovers x = true ∧ ∃ amt, ((pid, x), amt) ∈ l) := by
   induction l with
   | nil => intro g; exact ⟨Int.le_refl _, fun h => absurd rfl h⟩
   | cons hd r ih =>
@@ -440,8 +441,8 @@ theorem unlockAll_lockedOf (pid : Nat) (l : List ((Nat × Acct) × Int)) (x : Ac
       | none =>
         obtain ⟨h1, h2⟩ := ih g
         refine ⟨h1, fun hne => ?_⟩
-        obtain ⟨e, amt', hm⟩ := h2 hne
-        exact ⟨e, amt', List.mem_cons_of_mem _ hm⟩
+        obtain ⟨e, hsc, amt', hm⟩ := h2 hne
+        exact ⟨e, hsc, amt', List.mem_cons_of_mem _ hm⟩
       | some g' =>
         rw [Option.getD_some]
         obtain ⟨h1, h2⟩ := ih g'
@@ -452,18 +453,18 @@ theorem unlockAll_lockedOf (pid : Nat) (l : List ((Nat × Acct) × Int)) (x : Ac
           refine ⟨by omega, fun _ => ?_⟩
           obtain ⟨hxa, hσ⟩ := hx
           simp only [Option.some.injEq] at hσ
-          refine ⟨hσ.symm, amt, ?_⟩
+          refine ⟨hσ.symm, hxa ▸ hc.2, amt, ?_⟩
           rw [hxa, ← hc.1]
           exact List.mem_cons_self
         · rw [if_neg hx] at hstep
           refine ⟨by omega, fun hne => ?_⟩
           have : lockedOf (unlockAll g' pid r) x σ ≠ lockedOf g' x σ := by rw [hstep]; exact hne
-          obtain ⟨e, amt', hm⟩ := h2 this
-          exact ⟨e, amt', List.mem_cons_of_mem _ hm⟩
+          obtain ⟨e, hsc, amt', hm⟩ := h2 this
+          exact ⟨e, hsc, amt', List.mem_cons_of_mem _ hm⟩
     · obtain ⟨h1, h2⟩ := ih g
       refine ⟨h1, fun hne => ?_⟩
-      obtain ⟨e, amt', hm⟩ := h2 hne
-      exact ⟨e, amt', List.mem_cons_of_mem _ hm⟩
+      obtain ⟨e, hsc, amt', hm⟩ := h2 hne
+      exact ⟨e, hsc, amt', List.mem_cons_of_mem _ hm⟩
 
 /-! ### the timer callbacks only release proposal locks -/
 
@@ -475,7 +476,7 @@ structure Releases (w w' : World) : Prop where
   total : ∀ x, totalOf w'.gov x = totalOf w.gov x
   le : ∀ x σ, lockedOf w'.gov x σ ≤ lockedOf w.gov x σ
   only : ∀ x σ, lockedOf w'.gov x σ ≠ lockedOf w.gov x σ →
-    σ = .ordinary ∧ ∃ pid amt, ((pid, x), amt) ∈ w.locks
+    σ = .ordinary ∧ lockScanCovers x = true ∧ ∃ pid amt, ((pid, x), amt) ∈ w.locks
 
 theorem Releases.refl (w : World) : Releases w w :=
   ⟨rfl, rfl, id, fun _ => rfl, fun _ _ => Int.le_refl _, fun _ _ h => absurd rfl h⟩
@@ -496,8 +497,8 @@ theorem releases_unlockAll (w : World) (pid : Nat) (props : List (Nat × Proposa
     Releases w { w with gov := unlockAll w.gov pid w.locks, props := props } := by
   refine ⟨rfl, rfl, fun hg => good_unlockAll pid w.locks hg, fun x => unlockAll_totalOf pid w.locks x w.gov,
     fun x σ => (unlockAll_lockedOf pid w.locks x σ w.gov).1, fun x σ hne => ?_⟩
-  obtain ⟨e, amt, hm⟩ := (unlockAll_lockedOf pid w.locks x σ w.gov).2 hne
-  exact ⟨e, pid, amt, hm⟩
+  obtain ⟨e, hsc, amt, hm⟩ := (unlockAll_lockedOf pid w.locks x σ w.gov).2 hne
+  exact ⟨e, hsc, pid, amt, hm⟩
 
 theorem releases_sameGov {w w' : World} (hp : w'.pre = w.pre) (hl : w'.locks = w.locks) (hg : w'.gov = w.gov) :
     Releases w w' := by
